@@ -33,7 +33,8 @@ func (Driver) Info() core.Info {
 		Title: "every value the library returns is well-formed for its type",
 		Rule: "case = one scenario of one workload family (constructors, refinement builders, mark operations, operation methods, ValueSet helpers, " +
 			"convert.Convert/GetConversion/Unify to related targets incl. optional attributes and dynamic parts, ~80 stdlib functions + MakeToFunc, JSON and msgpack " +
-			"decoders on valid and mutated encodings incl. hand-built dynamic wrappers, Transform/Walk/Path.Apply, gocty.ToCtyValue) over the shared generators " +
+			"decoders on valid and mutated encodings incl. hand-built dynamic wrappers, Transform/Walk/Path.Apply, gocty.ToCtyValue, call histories in which results " +
+			"and predicted-type unknowns of one call are arguments of the next and all earlier values are re-walked after every step) over the shared generators " +
 			"(types depth<=3 with dynamic parts, capsules, NFC/NFD twin names; values known/null/unknown/refined/marked at any depth; non-NFC strings and keys; " +
 			"duplicate and marked set members); every cty.Value the library hands back (results, members yielded by iterators, bounds of ranges, callback arguments) " +
 			"is validated by cty.VerifWellFormed + type dump (hook flavour), mon.WellFormed (public flavour) and an accessor sweep, and counted per API site. " +
@@ -76,6 +77,7 @@ func init() {
 		{"msgpack", 10, caseMsgpack},
 		{"walk", 8, caseWalk},
 		{"gocty", 5, caseGocty},
+		{"history", 20, caseHistory},
 	}
 }
 
@@ -102,6 +104,7 @@ func (Driver) Run(c *core.Ctx) {
 		r := c.RNG(i)
 		f := families[r.Weighted(weights)]
 		m.caseVals = 0
+		m.curCase, m.lastFam = i, f.name
 		desc := ""
 		c.Begin(i, func() string {
 			return fmt.Sprintf("family %s case %d (inputs are printed with the violation)", f.name, i)
@@ -119,6 +122,12 @@ func (Driver) Run(c *core.Ctx) {
 		recs = append(recs, rec{core.HashString(f.name + "|" + desc), m.caseVals > 0})
 		if c.WantSample() && m.caseVals > 3 && i%7 == 3 {
 			c.Sample(map[string]any{"family": f.name, "case": clipS(desc, 700), "values_checked": m.caseVals})
+		}
+		if i%ringPeriod == ringPeriod-1 || i == n-1 {
+			// values seen earlier (in any family) and the package-level values are walked again
+			if o := core.Guard(m.recheckWindow); o.Panicked {
+				c.Violate("driver", "unguarded panic in the workload", "window re-check", fmt.Sprintf("case %d", i), o.PanicMsg+"\n"+o.Stack)
+			}
 		}
 	}
 	if c.Batch == 0 {
